@@ -162,30 +162,81 @@ func Handle(ents []Ent) (*keyset.Handle, error) {
 // uncopied slice, or returns memory aliasing an input then computes with / returns the wrong bytes, which the
 // reference (fed from pristine copies taken before the call) exposes. Outputs must be rendered AFTER the scribble.
 
-// Arena is the reused backing array of one argument role.
+// Arena is the reused backing array of one argument role. Layout of a loaded input:
+//
+//	[ guard | data (what Tink is handed) | spare capacity | guard ]
+//
+// guard zones and spare capacity are filled with a sentinel pattern; the slice handed to Tink has len = data and
+// cap = data + spare, so an append() by the callee lands in the sentinel-filled spare capacity. Intact compares the
+// whole region with what was loaded: input bytes, spare capacity and guards must be unchanged after the call.
 type Arena struct {
-	mem []byte
-	gen byte
+	mem   []byte
+	want  []byte // pre-call snapshot of mem[:used]
+	used  int
+	live  bool // loaded since the last scribble
+	gen   byte
+	guard int
 }
 
-// Load overwrites the arena with v and returns the slice to hand to Tink (nil stays nil). The returned slice keeps
-// spare capacity on purpose.
+const (
+	arenaGuard = 32
+	arenaSpare = 48
+)
+
+func sentinel(i int, gen byte) byte { return 0xc3 ^ gen ^ byte(i*11) }
+
+// load lays out rec (the whole record that lives in the buffer) and returns the offset of its first byte.
+func (a *Arena) load(rec []byte) int {
+	need := arenaGuard + len(rec) + arenaSpare + arenaGuard
+	if cap(a.mem) < need {
+		a.mem = make([]byte, need*2)
+	}
+	a.mem = a.mem[:cap(a.mem)]
+	a.gen++
+	for i := 0; i < need; i++ {
+		a.mem[i] = sentinel(i, a.gen)
+	}
+	copy(a.mem[arenaGuard:], rec)
+	a.used = need
+	a.want = append(a.want[:0], a.mem[:need]...)
+	a.live = true
+	return arenaGuard
+}
+
+// Load overwrites the arena with v and returns the slice to hand to Tink (nil stays nil): len(v) bytes with
+// sentinel-filled spare capacity behind them.
 func (a *Arena) Load(v []byte) []byte {
 	if v == nil {
 		return nil
 	}
-	if cap(a.mem) < len(v) {
-		a.mem = make([]byte, len(v)*2+64)
-	}
-	a.mem = a.mem[:cap(a.mem)]
-	b := a.mem[:len(v)]
-	copy(b, v)
-	return b
+	off := a.load(v)
+	return a.mem[off : off+len(v) : off+len(v)+arenaSpare]
 }
 
-// Scribble overwrites the whole arena (used part and spare capacity) with a changing pattern.
+// LoadPrefix places the whole record rec in the arena and returns only its first n bytes: the rest of the record is
+// the slice's spare capacity (buf[:n] of a larger caller record).
+func (a *Arena) LoadPrefix(rec []byte, n int) []byte {
+	off := a.load(rec)
+	return a.mem[off : off+n : off+len(rec)+arenaSpare]
+}
+
+// Again returns the first n bytes of what is in the arena WITHOUT rewriting it.
+func (a *Arena) Again(n int) []byte {
+	return a.mem[arenaGuard : arenaGuard+n : a.used-arenaGuard]
+}
+
+// Intact reports whether input bytes, spare capacity and guard zones still hold what was loaded.
+func (a *Arena) Intact() bool {
+	if !a.live {
+		return true
+	}
+	return string(a.mem[:a.used]) == string(a.want)
+}
+
+// Scribble overwrites the whole arena with a changing pattern.
 func (a *Arena) Scribble() {
 	a.gen++
+	a.live = false
 	m := a.mem[:cap(a.mem)]
 	for i := range m {
 		m[i] = 0xa5 ^ a.gen ^ byte(i*7)
@@ -202,24 +253,59 @@ func Scribble(bs ...[]byte) {
 	}
 }
 
-// Arenas is a set of arenas by role name.
-type Arenas map[string]*Arena
-
-// In loads v into the arena of the given role.
-func (as Arenas) In(role string, v []byte) []byte {
-	a := as[role]
-	if a == nil {
-		a = &Arena{}
-		as[role] = a
-	}
-	return a.Load(v)
+// Arenas is a set of arenas by role name. It remembers whether any call altered a buffer it was handed
+// (TakeIntact), checked on every ScribbleAll / Check.
+type Arenas struct {
+	m     map[string]*Arena
+	dirty []string
 }
 
-// ScribbleAll scribbles every arena of the set.
-func (as Arenas) ScribbleAll() {
-	for _, a := range as {
+func NewArenas() *Arenas { return &Arenas{m: map[string]*Arena{}} }
+
+func (as *Arenas) get(role string) *Arena {
+	a := as.m[role]
+	if a == nil {
+		a = &Arena{}
+		as.m[role] = a
+	}
+	return a
+}
+
+// In loads v into the arena of the given role.
+func (as *Arenas) In(role string, v []byte) []byte { return as.get(role).Load(v) }
+
+// InPrefix loads the whole record rec and returns its first n bytes (spare capacity = the rest of the record).
+func (as *Arenas) InPrefix(role string, rec []byte, n int) []byte {
+	return as.get(role).LoadPrefix(rec, n)
+}
+
+// Again returns the first n bytes of the record already in the arena, without rewriting the buffer.
+func (as *Arenas) Again(role string, n int) []byte { return as.get(role).Again(n) }
+
+// Check compares every live arena with its pre-call snapshot and remembers the roles that were altered.
+func (as *Arenas) Check() {
+	for role, a := range as.m {
+		if !a.Intact() {
+			as.dirty = append(as.dirty, role)
+			a.want = append(a.want[:0], a.mem[:a.used]...) // report once; later calls are compared with the new state
+		}
+	}
+}
+
+// ScribbleAll checks every arena (see Check) and then scribbles over all of them.
+func (as *Arenas) ScribbleAll() {
+	as.Check()
+	for _, a := range as.m {
 		a.Scribble()
 	}
+}
+
+// TakeIntact reports whether every buffer handed to Tink since the last TakeIntact came back unchanged (input
+// bytes, spare capacity, guard zones), and resets the record.
+func (as *Arenas) TakeIntact() bool {
+	ok := len(as.dirty) == 0
+	as.dirty = nil
+	return ok
 }
 
 // Walk is the sequence of input lengths successive calls on ONE object go through: growing, shrinking down to empty,
@@ -234,4 +320,18 @@ func Walk(min int) []int {
 		}
 	}
 	return out
+}
+
+// Writer is a trace writer that stamps every event with inIntact: whether all buffers handed to Tink since the
+// previous event came back unchanged (input bytes, spare capacity, guard zones).
+type Writer struct {
+	*vt.Writer
+	B *Arenas
+}
+
+func NewWriter(path string, b *Arenas) *Writer { return &Writer{vt.NewWriter(path), b} }
+
+func (w *Writer) Emit(e vt.Ev) {
+	e["inIntact"] = w.B.TakeIntact()
+	w.Writer.Emit(e)
 }
